@@ -458,6 +458,44 @@ func runC16(c *Ctx) {
 		}
 	}
 	r.Add("R3", "spawner-does-not-block", c.Pos(a.ConnDispatch.Pos()), c.FuncKey(a.ConnDispatch), "Conn.dispatch has no blocking channel operations", nBlock == 0, fmt.Sprintf("%d blocking channel operations", nBlock))
+	// nothing outside hSet.dispatch waits on a WaitGroup that handler dispatch signs in to
+	c.noWaitOnDispatchGroups("R3")
+}
+
+// noWaitOnDispatchGroups: a WaitGroup stored in a struct field and Add/Done'd
+// inside the handler-dispatch region (which also runs background handlers)
+// must not be waited on anywhere: a never-returning background handler would
+// block the waiter (the per-dispatch join uses a local WaitGroup).
+func (c *Ctx) noWaitOnDispatchGroups(rule string) {
+	r, a := c.R, c.A
+	region := c.Closure([]*ssa.Function{a.SetDispatch}, func(from *ssa.Function, e Edge) bool { return !e.Site.Common().IsInvoke() })
+	groups := map[*types.Var]bool{}
+	for _, fn := range region.Order {
+		if !c.InModuleFn(fn) {
+			continue
+		}
+		funcInstrs(fn, func(in ssa.Instruction) {
+			for _, m := range []string{"Add", "Done"} {
+				if recv, ok := isWGMethod(in, m); ok {
+					if fv, _ := fieldOf(recv); fv != nil && fv != a.WG {
+						groups[fv] = true
+					}
+				}
+			}
+		})
+	}
+	n := 0
+	for _, fn := range c.clientFuncs() {
+		funcInstrs(fn, func(in ssa.Instruction) {
+			if recv, ok := isWGMethod(in, "Wait"); ok {
+				if fv, _ := fieldOf(recv); fv != nil && groups[fv] {
+					n++
+					r.Add(rule, "waits-for-dispatch:"+c.FuncKey(fn)+":"+fv.Name(), c.InstrPos(in), c.FuncKey(fn), "no one waits for background handlers to finish", false, "Wait on "+fv.Name()+", which handler dispatch (including background handlers) adds itself to")
+				}
+			}
+		})
+	}
+	r.Add(rule, "no-wait-on-dispatch-groups", "-", "", "no WaitGroup joined by handler dispatch is waited on outside the per-dispatch join", n == 0, fmt.Sprintf("%d field WaitGroups used by dispatch, %d waits on them", len(groups), n))
 }
 
 var _ = types.Typ
